@@ -6,6 +6,7 @@ import (
 	"sort"
 	"sync"
 	"testing"
+	"testing/synctest"
 	"time"
 
 	discovery "github.com/IBM/TSS/disc"
@@ -40,6 +41,20 @@ type c07Case struct {
 	// their tag); what they send is exactly the generated Script.
 	Scripted bool
 	Script   []c07Move
+	// Outsider: a node that the transport authenticates under an identifier that is NOT a configured member. It sends
+	// synchroniser frames that carry the tag of a configured member (tags are not secret), naming itself in the views.
+	HasOutsider bool
+	Outsider    int
+	OutMoves    []c07OutMove
+}
+
+type c07OutMove struct {
+	Type  int // 1 membership, 2 query, 3 response
+	TagOf int // universe position of the configured member whose tag is used
+	View  int // 0 X's latest view + outsider, 1 {outsider, X}, 2 honest participants + outsider, 3 X's latest view as is, 4 subset by Mask + outsider, 5 honest participants with the tag owner in place of the outsider
+	X     int
+	Mask  int
+	Dest  int // honest member index
 }
 
 type c07Move struct {
@@ -132,6 +147,24 @@ func genC07(byzantine bool) func(t *rapid.T) c07Case {
 				})
 			}
 		}
+		if byzantine && rapid.Bool().Draw(t, "outsider") {
+			c.HasOutsider = true
+			in := map[int]bool{}
+			for _, id := range c.Universe {
+				in[id] = true
+			}
+			c.Outsider = rapid.Custom(func(t *rapid.T) int { return genID(t, "oid") }).Filter(func(x int) bool { return !in[x] }).Draw(t, "outsiderID")
+			for i := rapid.IntRange(1, 8).Draw(t, "nout"); i > 0; i-- {
+				c.OutMoves = append(c.OutMoves, c07OutMove{
+					Type:  rapid.SampledFrom([]int{1, 1, 2, 3, 3}).Draw(t, "otype"),
+					TagOf: rapid.IntRange(0, n-1).Draw(t, "otag"),
+					View:  rapid.IntRange(0, 5).Draw(t, "oview"),
+					X:     rapid.IntRange(0, nh-1).Draw(t, "ox"),
+					Mask:  rapid.IntRange(0, 255).Draw(t, "omask"),
+					Dest:  rapid.IntRange(0, nh-1).Draw(t, "odest"),
+				})
+			}
+		}
 		c.Sched = genSchedule(t, 300)
 		c.ProbeMs = rapid.SampledFrom([]int{200, 200, 50, 1000}).Draw(t, "probe")
 		for range c.Honest {
@@ -157,12 +190,13 @@ type c07Result struct {
 }
 
 type c07Info struct {
-	Results     []c07Result
-	Frames      int
-	LiesApplied int
-	BigIDs      bool
-	Staggered   bool
-	Completed   int
+	OutsiderFrames int
+	Results        []c07Result
+	Frames         int
+	LiesApplied    int
+	BigIDs         bool
+	Staggered      bool
+	Completed      int
 }
 
 const c07Deadline = 30 * time.Second
@@ -370,8 +404,28 @@ func runC07(c c07Case) *vh.Outcome {
 			}
 			return true
 		}
-		if c.Scripted {
-			si := 0
+		// tags of every configured member on topic 0, produced by the library itself (throw-away members that are
+		// connected to nothing): what an outsider can compute just as well
+		refTag := map[uint16][]byte{}
+		if c.HasOutsider {
+			for _, id := range uni {
+				id := id
+				grab := func(msg []byte) {
+					if _, tag, _, ok := decodeView(msg); ok && refTag[id] == nil {
+						refTag[id] = append([]byte(nil), tag...)
+					}
+				}
+				tm := &discovery.Member{Membership: append([]uint16(nil), uni...), ID: id, Logger: &sim.Logger{}, Broadcast: grab, Send: func(msg []byte, _ uint16) { grab(msg) }}
+				tctx, tcancel := context.WithCancel(context.Background())
+				go func() { _ = tm.Synchronize(tctx, func([]uint16) {}, topicBytes(0), c.Expected, time.Millisecond) }()
+				time.Sleep(2 * time.Millisecond) // the first announcement goes out with the first probe tick
+				synctest.Wait()
+				tcancel()
+				synctest.Wait()
+			}
+		}
+		var scriptAction, outsiderAction func() []sim.Action
+		{
 			latestView := func(id uint16) []uint16 {
 				var v []uint16
 				for _, f := range net.LogCopy() {
@@ -383,8 +437,65 @@ func runC07(c c07Case) *vh.Outcome {
 				}
 				return v
 			}
-			d.Extra = func() []sim.Action {
-				if si >= len(c.Script) {
+			si := 0
+			oi := 0
+			outsiderAction = func() []sim.Action {
+				if !c.HasOutsider || oi >= len(c.OutMoves) {
+					return nil
+				}
+				mv := c.OutMoves[oi]
+				owner := uni[mv.TagOf%len(uni)]
+				tag := refTag[owner]
+				if tag == nil {
+					oi++
+					return nil
+				}
+				return []sim.Action{{Name: "outsider", Slot: 950 + oi, Do: func() {
+					oi++
+					out := uint16(c.Outsider)
+					x := uni[c.Honest[mv.X%len(c.Honest)]]
+					dest := uni[c.Honest[mv.Dest%len(c.Honest)]]
+					var view []uint16
+					switch mv.View {
+					case 0:
+						view = append(append([]uint16(nil), latestView(x)...), out)
+					case 1:
+						view = []uint16{out, x}
+					case 2:
+						for _, p := range c.Honest {
+							view = append(view, uni[p])
+						}
+						view = append(view, out)
+					case 3:
+						view = append([]uint16(nil), latestView(x)...)
+					case 4:
+						for i, id := range uni {
+							if mv.Mask&(1<<uint(i%8)) != 0 {
+								view = append(view, id)
+							}
+						}
+						view = append(view, out)
+					default:
+						for _, p := range c.Honest {
+							view = append(view, uni[p])
+						}
+						view = append(view, owner)
+					}
+					seen := map[uint16]bool{}
+					var dedup []uint16
+					for _, v := range view {
+						if !seen[v] {
+							seen[v] = true
+							dedup = append(dedup, v)
+						}
+					}
+					sort.Slice(dedup, func(i, j int) bool { return dedup[i] < dedup[j] })
+					info.OutsiderFrames++
+					net.Inject(&sim.Frame{From: out, To: dest, MsgType: 1, Data: encodeView(byte(mv.Type), tag, dedup)})
+				}}}
+			}
+			scriptAction = func() []sim.Action {
+				if !c.Scripted || si >= len(c.Script) {
 					return nil
 				}
 				mv := c.Script[si]
@@ -431,6 +542,7 @@ func runC07(c c07Case) *vh.Outcome {
 				}}}
 			}
 		}
+		d.Extra = func() []sim.Action { return append(scriptAction(), outsiderAction()...) }
 		interval := time.Duration(c.ProbeMs) * time.Millisecond
 		mkCall := func(id uint16, ti int, lag int, judged bool) *sim.Call {
 			res := &c07Result{Member: int(id), Topic: ti}
@@ -523,7 +635,10 @@ func runC07(c c07Case) *vh.Outcome {
 		info.Results = append(info.Results, *r)
 	}
 	o.Key = fmt.Sprintf("%+v", c)
-	o.NonTrivial = info.LiesApplied > 0 || info.BigIDs || info.Staggered
+	o.NonTrivial = info.LiesApplied > 0 || info.BigIDs || info.Staggered || info.OutsiderFrames > 0
+	if info.OutsiderFrames > 0 {
+		o.Classes = append(o.Classes, "outsider-with-a-member's-tag")
+	}
 	if info.LiesApplied > 0 {
 		o.Classes = append(o.Classes, "byzantine-lie-applied")
 	}
